@@ -324,6 +324,36 @@ def r3_data_closure(ctx):
             r.viol("R3:into_data_keys#%s" % var, "the keys of Options::%s cannot be determined: %s" % (var, got if isinstance(got, str) else absint.fmt(got)[:120]), file=fn.file, line=fn.line)
             continue
         listed[var] = [x[1] for x in got[1]]
+    # the keys requested for a project = the union over the families it uses: get_keys evaluated on every subset of the families
+    gk = ast.fn(DK, "get_keys")
+    if gk is None:
+        r.missing("datakey::get_keys")
+    elif listed:
+        import itertools
+        fams_ = sorted(listed)
+        badk = None
+        nsub = 0
+        for k_ in range(len(fams_) + 1):
+            for sub in itertools.combinations(fams_, k_):
+                ev_ = AEval(funcs=funcs_dk)
+                ev_.path_builtins = {"icu_datagen::keys": lambda a: a[0], "keys": lambda a: a[0], "icu_datagen::key": lambda a: a[0]}
+                try:
+                    absint.set_program(ast)
+                    got = ev_.run_fn(gk, [_L(*[_C(x) for x in sub])])
+                except absint.Unknown as u:
+                    got = "UNKNOWN: %s" % u
+                if isinstance(got, str) or got[0] != "list" or not all(x[0] == "str" for x in got[1]):
+                    badk = badk or "get_keys cannot be determined for %s: %s" % (list(sub), got if isinstance(got, str) else absint.fmt(got)[:100])
+                    continue
+                nsub += 1
+                want_ = set(x for f_ in sub for x in listed[f_])
+                have_ = set(x[1] for x in got[1])
+                if have_ != want_:
+                    badk = badk or "a project using %s requests %d keys; the union of its families' keys has %d (missing: %s)" % (list(sub), len(have_), len(want_), sorted(want_ - have_)[:4])
+        if badk:
+            r.viol("R3:get_keys#union", badk, file=gk.file, line=gk.line)
+        else:
+            r.inst("get_keys", "%d subsets of the %d families: the requested keys are exactly the union of each used family's keys" % (nsub, len(fams_)))
     e = ast.enum(DK, "Options")
     ev = sorted(v["name"] for v in e["variants"]) if e else []
     if ev != sorted(FAMILY_CTORS) or sorted(listed) != ev:
@@ -556,19 +586,32 @@ def r0_options(ctx):
     return r, True, None
 
 
+def shared(ctx):
+    """clauses decided by other properties' machinery that this property depends on"""
+    from rules import c08
+    from rules.common import borrow, skip_icu_gates
+    r5 = borrow(c08.r1_collector(ctx), "C20.R5", "the key information the options are derived from holds every variable of every value kind, plural forms included",
+                "`a formatter that is used must have its data requested`: the helper reads formatters off the collected variables; a variable that only occurs "
+                "inside a plural form (or a range branch, a component) and is not collected takes its formatter's data out of the provider", only=r"get_keys_inner", floor=1)
+    r6 = skip_icu_gates(ctx, "C20.R6", "the helper's parse accepts every formatter and plural regardless of the parser's own feature set",
+                        "`the helper derives the options from the translations`: it parses with SKIP_ICU_CFG, which must stand in for each formatter / plural "
+                        "feature wherever the parser tests one; a gate that ignores the flag makes the helper fail (or skip) exactly the translations whose data it should request")
+    return [r5, r6]
+
+
 def run(ctx):
     import os
     prog = ctx.mir("main")
     r0, ok, why = r0_options(ctx)
     if ok and not os.environ.get("VERIF_FORCE_FALLBACK"):
         r2 = r2_tables(ctx, prog, evaluated=True)
-        return [r0, r2, r3_data_closure(ctx)]
+        return [r0, r2, r3_data_closure(ctx)] + shared(ctx)
     if not ok and not r0.violations:
         r0.instances[:] = []
         r0.inst("evaluation not available", "fallback to the structural rules R1 / R4: %s" % str(why)[:160])
         r0.viol("R0:undecided", "the evaluation cannot interpret the current code (%s): the clauses it decides are NOT decided on this tree; the structural rules reported alongside only cover part of them (fail closed)" % str(why)[:300])
         r0.floor = 1
-    return [r0, r1_walk(ctx, prog), r2_tables(ctx, prog), r3_data_closure(ctx), r4_locales(ctx, prog)]
+    return [r0, r1_walk(ctx, prog), r2_tables(ctx, prog), r3_data_closure(ctx), r4_locales(ctx, prog)] + shared(ctx)
 
 
 MANIFEST_ENTRY = {
